@@ -570,7 +570,7 @@ pub fn run(env: &Env) -> i32 {
     rep.shrink_iters = Some(200);
     let base = work_dir("c06");
     let base2 = base.clone();
-    rep.campaign("projects", env.cases(500, 6_000), (300, 1600), move |case| project_case(case, &base2));
+    rep.campaign("projects", env.cases(1_500, 12_000), (300, 1600), move |case| project_case(case, &base2));
     let _ = std::fs::remove_dir_all(&base);
     rep.finish()
 }
